@@ -50,8 +50,10 @@ type Program struct {
 	retOwner    map[*ssa.Return]*ssa.Return
 	transp      map[*ssa.Function]bool
 
-	useVTA bool
-	cg     *callgraph.Graph
+	useVTA     bool
+	cg         *callgraph.Graph
+	enums      map[string][]enumAlt // results of enum-valued classification helpers (ssax.go: noteEnum)
+	inNoteEnum bool
 
 	cells map[*ssa.Alloc]*cellInfo
 	binds map[*ssa.FreeVar]ssa.Value
